@@ -110,6 +110,7 @@ func genC11(t *rapid.T) E1Case {
 	}
 	c.Futile = drawFutile(t, []int{0, 0, 1})
 	c.Schedule = genSchedule(t, 100)
+	c.AnyCloseReturn = true
 	return c
 }
 
@@ -155,12 +156,26 @@ func runC11(c E1Case) (out core.Outcome) {
 		out.Inconclusive = "panic escaped an API call: " + msg
 		return
 	}
+	var closedAt int
+	var closeArgNil bool
+	var closeArg interface{}
 	if len(r.inactive) == 0 {
-		r.cls.Add("never-closed")
-		return
+		// no inactive event: did a user's Close call return all the same?
+		var ret *e1Call
+		for _, cc := range r.closeCalls {
+			if cc.End != 0 && cc.Who == "task" && (ret == nil || cc.End < ret.End) {
+				ret = cc
+			}
+		}
+		if ret == nil {
+			r.cls.Add("never-closed")
+			return
+		}
+		r.cls.Add("close-returned-without-inactive")
+		closedAt, closeArgNil, closeArg = ret.End, ret.Err == nil, ret.Err
+	} else {
+		closedAt, closeArgNil, closeArg = r.inactiveSeq[0], r.inactive[0] == nil, r.inactive[0]
 	}
-	closedAt := r.inactiveSeq[0]
-	closeArgNil := r.inactive[0] == nil
 	r.cls.Add("close-arg-nil:%v", closeArgNil)
 	stream, _ := r.tr.Accepted()
 	p, v := r.parseStream(stream)
@@ -218,7 +233,7 @@ func runC11(c E1Case) (out core.Outcome) {
 			switch {
 			case w.Err == nil:
 				sig := "C11/success-after-close:" + w.Op.Op
-				out.Violation = core.Viol(sig, "%s on a %s channel began after Close(%v) had returned and reported success (n=%d)%s", w.Op.Op, c.Kind, r.inactive[0], w.N, st)
+				out.Violation = core.Viol(sig, "%s on a %s channel began after Close(%v) had returned and reported success (n=%d)%s", w.Op.Op, c.Kind, closeArg, w.N, st)
 				return
 			case w.N != 0 && w.Op.Op != "write":
 				out.Violation = core.Viol("C11/count-after-close:"+w.Op.Op, "%s after Close returned (%d, %v)", w.Op.Op, w.N, w.Err)
